@@ -1,5 +1,6 @@
 """Spec functions and lemmas for the bijective base-26 labels (C14)."""
 from pyvc.contracts import specfn, lemma
+from pyvc.specbuiltins import *
 from pyvc.ghost import check
 from core.letter_id_generator import number_to_letter_id, letter_id_to_number
 
